@@ -720,3 +720,127 @@ theorem rc_loop {F : BodyFn} {P : Project} {g : G} (hwf : WF P g) (cfg : Cfg) :
 
 end Engine
 end Pytask
+
+/-! ## Matching rows: not executed again; committed rows match -/
+namespace Pytask
+namespace Engine
+
+theorem scan_unchanged (P : Project) (g : G) (w : World) (t : Nat) (vs : List Nat)
+    (h : ∀ v ∈ vs, ∃ x, stateOf P w v = some x ∧ lookup w.db (tv t, v) = some x) :
+    scan P g w t false vs = .unchanged := by
+  induction vs with
+  | nil => simp [scan]
+  | cons v vs ih =>
+    obtain ⟨x, h1, h2⟩ := h v (by simp)
+    unfold scan
+    simp only [Bool.false_and, Bool.false_eq_true, if_false, h1, Option.isNone_some, Bool.and_false, hasChanged, h2, bne_self_eq_false]
+    exact ih (fun v hv => h v (List.mem_cons_of_mem _ hv))
+
+theorem setupChain_ne_none (P : Project) (g : G) (cfg : Cfg) (s : Sess) (t : TaskSpec) (name : String)
+    (himpl : setupImpl P g cfg s t name ≠ .none) (order : List String) (hmem : name ∈ order) :
+    setupChain P g cfg s t order ≠ .none := by
+  induction order with
+  | nil => cases hmem
+  | cons n ns ih =>
+    unfold setupChain
+    cases hr : setupImpl P g cfg s t n <;> simp only [] <;> try (intro h; cases h)
+    rcases List.mem_cons.1 hmem with rfl | hin
+    · exact absurd hr himpl
+    · exact ih hin
+
+/-- A task all of whose rows match is not executed by a non-forced build: `runPhases` raises (skipped, unchanged, …) before the
+body and leaves the session as it was (the `C03_step` shape). -/
+theorem runPhases_rowsMatch (F : BodyFn) (P : Project) (g : G) (cfg : Cfg) (s : Sess) (t : TaskSpec)
+    (hforce : cfg.force = false) (hm : RowsMatch P g s.w t.id) :
+    (runPhases F P g cfg s t).2 = s ∧ (runPhases F P g cfg s t).1 ≠ .none := by
+  have himpl : setupImpl P g cfg s t "execute" ≠ .none := by
+    unfold setupImpl
+    simp only [show ("execute" == "skipping") = false by decide, show ("execute" == "persist") = false by decide,
+      show ("execute" == "execute") = true by decide, Bool.false_eq_true, if_false, if_true, hforce,
+      scan_unchanged P g s.w t.id (neighbours g t.id) hm]
+    split <;> simp
+  have hne := setupChain_ne_none P g cfg s t "execute" himpl Generated.setupOrder (by decide)
+  unfold runPhases
+  cases hsc : setupChain P g cfg s t Generated.setupOrder <;> simp only [] <;> first | exact absurd hsc hne | simp
+
+theorem protocol_rowsMatch_log (F : BodyFn) (P : Project) (g : G) (cfg : Cfg) (s : Sess) (t : TaskSpec)
+    (hforce : cfg.force = false) (hm : RowsMatch P g s.w t.id) : (protocol F P g cfg s t).log = s.log := by
+  unfold protocol
+  simp only []
+  have h := (runPhases_rowsMatch F P g cfg s t hforce hm).1
+  cases hr : (runPhases F P g cfg s t).1 <;> simp only [processReport] <;> (try split) <;> simp [h]
+
+/-- After a protocol of `spec` that ended in SUCCESS (body, teardown and every row commit went through), all rows of `spec`
+match the files. -/
+theorem rowsMatch_after_protocol (F : BodyFn) (P : Project) (g : G) (cfg : Cfg) (s : Sess) (spec : TaskSpec)
+    (hr : (runPhases F P g cfg s spec).1 = .none)
+    (hok : (updateStates P g (runPhases F P g cfg s spec).2.w spec.id (neighbours g spec.id)).2 = true) :
+    RowsMatch P g (protocol F P g cfg s spec).w spec.id := by
+  have hdry := runPhases_none_not_dry F P g cfg s spec hr
+  have hw : (protocol F P g cfg s spec).w = (updateStates P g (runPhases F P g cfg s spec).2.w spec.id (neighbours g spec.id)).1 := by
+    unfold protocol
+    simp only [hr, processReport, recordStates, hdry, Bool.false_eq_true, if_false, hok, if_true]
+  rw [hw]
+  intro v hv
+  obtain ⟨x, h1, h2⟩ := (updateStates_ok P g spec.id (neighbours g spec.id) _ hok).1 v hv
+  refine ⟨x, ?_, h2⟩
+  rw [← h1]
+  unfold stateOf
+  rw [updateStates_fs]
+
+/-- Steps that leave the neighbourhood of `t` alone: writes to files that are neither a neighbour node of `t` nor `t`'s
+module, and row commits of other tasks. -/
+def StepAvoids (P : Project) (g : G) (t : Nat) : Step → Prop
+  | .write n _ => nv n ∉ neighbours g t ∧ ∀ spec, Project.find? P t = some spec → spec.src ≠ n
+  | .row u _ _ => u ≠ t
+
+theorem stateOf_write_avoid (P : Project) (g : G) (t : Nat) (w : World) (n c : Nat)
+    (h : StepAvoids P g t (.write n c)) (v : Nat) (hv : v ∈ neighbours g t) (hvt : isTaskV v = true → v = tv t) :
+    stateOf P (applyStep w (.write n c)) v = stateOf P w v := by
+  unfold stateOf applyStep
+  by_cases hT : isTaskV v = true
+  · have := hvt hT
+    subst this
+    simp only [hT, if_true]
+    have h2 : tv t / 2 = t := by unfold tv; omega
+    rw [h2]
+    cases hf : Project.find? P t with
+    | none => rfl
+    | some spec => exact lookup_insert_ne _ _ _ _ (h.2 spec hf)
+  · simp only [hT, Bool.false_eq_true, if_false]
+    apply lookup_insert_ne
+    intro heq
+    apply h.1
+    have : v = nv n := by
+      unfold isTaskV at hT
+      unfold nv
+      have : v % 2 = 1 := by
+        have : ¬ (v % 2 = 0) := by simpa using hT
+        omega
+      omega
+    rw [← this]; exact hv
+
+/-- Frame: `RowsMatch t` survives steps that avoid `t`'s neighbourhood. (`hT`: the only task vertex among the neighbours of `t`
+is `t` itself — the graph is bipartite.) -/
+theorem rowsMatch_frame (P : Project) (g : G) (t : Nat) (hT : ∀ v ∈ neighbours g t, isTaskV v = true → v = tv t)
+    (st : List Step) (w : World) (hav : ∀ s ∈ st, StepAvoids P g t s) (hm : RowsMatch P g w t) :
+    RowsMatch P g (applySteps w st) t := by
+  induction st generalizing w with
+  | nil => exact hm
+  | cons s st ih =>
+    rw [applySteps_cons]
+    apply ih _ (fun s' hs' => hav s' (List.mem_cons_of_mem _ hs'))
+    have hs := hav s (by simp)
+    intro v hv
+    obtain ⟨x, h1, h2⟩ := hm v hv
+    cases s with
+    | write n c =>
+      exact ⟨x, by rw [stateOf_write_avoid P g t w n c hs v hv (hT v hv)]; exact h1, h2⟩
+    | row u y z =>
+      refine ⟨x, h1, ?_⟩
+      simp only [applyStep]
+      rw [lookup_insert_ne _ _ _ _ (by intro heq; exact tv_ne_of_ne hs (by simpa using (congrArg Prod.fst heq).symm))]
+      exact h2
+
+end Engine
+end Pytask
